@@ -29,11 +29,13 @@ HARNESSES = {
     "C10": {
         "quick": ["c10_size_ne_align_eq_n3", "c10_size_eq_align_ne_n3", "c10_size_ne_align_ne_n3",
                   "c10_zst_vs_byte_n3", "c10_zst_vs_tracked_n3", "c10_tracked_vs_zst_n3",
-                  "c10_bytes4_vs_u32_n3", "c10_heap_vs_over16_n3"],
+                  "c10_bytes4_vs_u32_n3", "c10_heap_vs_over16_n3", "c10_rev_align_4_to_1_n3",
+                  "c10_rev_align_16_to_8_n3", "c10_rev_size_6_to_4_n3"],
         "thorough": ["c10_size_ne_align_eq_n5", "c10_size_eq_align_ne_n5", "c10_zst_vs_tracked_n5",
                      "c10_size_ne_align_eq_n3", "c10_size_eq_align_ne_n3", "c10_size_ne_align_ne_n3",
                      "c10_zst_vs_byte_n3", "c10_zst_vs_tracked_n3", "c10_tracked_vs_zst_n3",
-                     "c10_bytes4_vs_u32_n3", "c10_heap_vs_over16_n3"],
+                     "c10_bytes4_vs_u32_n3", "c10_heap_vs_over16_n3", "c10_rev_align_4_to_1_n3",
+                     "c10_rev_align_16_to_8_n3", "c10_rev_size_6_to_4_n3"],
     },
 }
 
@@ -265,3 +267,10 @@ def run(pid, tier):
                         "precondition (refusal precedes any element access: converter unreachable, no element dropped)"]
     write_evidence(pid, tier, coverage, time.time() - t0, violations=len(v.violations), assumptions=assumptions)
     return v.finish()
+
+
+def replay(pid, path):
+    ok, out = _build_native("dev")
+    fails, done, o = _native_replay(path, "dev")
+    print(o)
+    return 1 if fails else 0
